@@ -50,7 +50,10 @@ fn gen(seed: u64, idx: u64) -> Scn {
     let sep: &'static [u8] = if g.bool() { b"\n" } else { b"\x1e" };
     let n_rounds = 2 + g.usize(8);
     let rounds = (0..n_rounds)
-        .map(|_| (1 + g.below(if g.chance(1, 4) { 300 } else { 30 }), *g.pick(&[0u64, 0, 3, 900, 61_000])))
+        .map(|_| {
+            let hi = if g.chance(1, 4) { 300 } else { 30 };
+            (1 + g.below(hi), *g.pick(&[0u64, 0, 3, 900, 61_000]))
+        })
         .collect();
     let mut faults = Vec::new();
     if g.chance(1, 2) {
@@ -129,10 +132,11 @@ fn run(r: &mut Report, seed: u64, idx: u64) {
                     let st = stamp();
                     emitted.lock().unwrap().push((vid, st));
                     vid += 1;
-                    if vid % 16 == 0 {
-                        std::thread::yield_now();
+                    // slow enough that the 10 000-slot channel does not overflow (that would excuse everything)
+                    if vid % 8 == 0 {
+                        std::thread::sleep(Duration::from_micros(200));
                     }
-                    if vid > 1_020_000 {
+                    if vid > 1_004_000 {
                         break;
                     }
                 }
